@@ -9,5 +9,5 @@ mkdir -p out evidence
 /venv/bin/python -c "import yaml, hashlib"
 (cd spec && for m in HashStoreAPI HSProps MCContract TraceProps; do tla-sany $m.tla >/dev/null 2>&1 || { echo "SANY failed on $m"; exit 1; }; done)
 (cd spec/impl && for m in FileHashStore MCImpl MCImplCrash TraceSteps; do tla-sany $m.tla >/dev/null 2>&1 || { echo "SANY failed on impl/$m"; exit 1; }; done)
-(cd spec && for m in HashStoreAPI HSProps MCContract TraceProps TraceLin TraceFault TraceTables TraceConfig TraceLayout TraceClient TraceConverge LockProtocol MCLock Algorithms Config Layout Client StreamModel MCStream TraceStream TagTxn; do tla-sany $m.tla >/dev/null 2>&1 || { echo "SANY failed on $m"; exit 1; }; done)
+(cd spec && for m in HashStoreAPI HSProps MCContract TraceProps TraceLin TraceFault TraceTables TraceConfig TraceLayout TraceClient TraceConverge LockProtocol MCLock Algorithms Config Layout Client StreamModel MCStream TraceStream TagTxn DeleteTxn; do tla-sany $m.tla >/dev/null 2>&1 || { echo "SANY failed on $m"; exit 1; }; done)
 echo setup ok
